@@ -11,6 +11,7 @@ Inductive rstatus :=
   | RWaitCv (c m : nat)      (* inside Condvar::wait, in the waiter queue *)
   | RReacq (c m : nat)       (* notified, must re-acquire the mutex *)
   | RInNotify (n : nat)      (* inside Notify::wait *)
+  | RBoWait                  (* block_on returned Pending: waiting for a wake-up *)
   | RDone.
 
 Record rthread := mkRT {
@@ -19,7 +20,9 @@ Record rthread := mkRT {
   r_pc : nat;
   r_token : bool;                         (* park token *)
   r_guards : list (gkind * nat);
-  r_log : list (nat * result)             (* newest first *)
+  r_log : list (nat * result);            (* newest first *)
+  r_woken : bool;                         (* a wake-up arrived for the pending block_on *)
+  r_bospur : bool                         (* the pending block_on used its spurious return *)
 }.
 
 Record robj := mkRO {
@@ -50,12 +53,12 @@ Definition robj_of_decl (d : decl) : robj :=
   end.
 
 Definition rinit (weak : bool) (p : prog) : rstate :=
-  mkRS (mapi (fun b code => mkRT (if Nat.eqb b 0 then RReady else RNotStarted) code 0 false [] [])
+  mkRS (mapi (fun b code => mkRT (if Nat.eqb b 0 then RReady else RNotStarted) code 0 false [] [] false false)
              (p_bodies p))
        (map robj_of_decl (p_decls p)) (p_decls p) weak.
 
 Definition ro_default : robj := mkRO 0%N None [] [] false false false [] false 0 [] false [].
-Definition rt_default : rthread := mkRT RDone [] 0 false [] [].
+Definition rt_default : rthread := mkRT RDone [] 0 false [] [] false false.
 Definition robj_get (s : rstate) (i : nat) : robj := nth i (rs_objs s) ro_default.
 Definition rth_get (s : rstate) (i : nat) : rthread := nth i (rs_threads s) rt_default.
 
@@ -73,15 +76,16 @@ Definition ro_with_q (o : robj) q rx := mkRO (ro_val o) (ro_owner o) (ro_readers
 Definition ro_with_arc (o : robj) c sl := mkRO (ro_val o) (ro_owner o) (ro_readers o) (ro_waiters o) (ro_flag o) (ro_spur o) (ro_waiting o) (ro_q o) (ro_rx o) c sl (ro_live o) (ro_hist o).
 Definition ro_with_live (o : robj) b := mkRO (ro_val o) (ro_owner o) (ro_readers o) (ro_waiters o) (ro_flag o) (ro_spur o) (ro_waiting o) (ro_q o) (ro_rx o) (ro_cnt o) (ro_slots o) b (ro_hist o).
 
-Definition rt_with_status (t : rthread) st := mkRT st (r_code t) (r_pc t) (r_token t) (r_guards t) (r_log t).
-Definition rt_with_token (t : rthread) b := mkRT (r_status t) (r_code t) (r_pc t) b (r_guards t) (r_log t).
-Definition rt_with_guards (t : rthread) g := mkRT (r_status t) (r_code t) (r_pc t) (r_token t) g (r_log t).
+Definition rt_with_status (t : rthread) st := mkRT st (r_code t) (r_pc t) (r_token t) (r_guards t) (r_log t) (r_woken t) (r_bospur t).
+Definition rt_with_token (t : rthread) b := mkRT (r_status t) (r_code t) (r_pc t) b (r_guards t) (r_log t) (r_woken t) (r_bospur t).
+Definition rt_with_guards (t : rthread) g := mkRT (r_status t) (r_code t) (r_pc t) (r_token t) g (r_log t) (r_woken t) (r_bospur t).
+Definition rt_with_bo (t : rthread) st w sp := mkRT st (r_code t) (r_pc t) (r_token t) (r_guards t) (r_log t) w sp.
 
 (* finish the current instruction of thread [t] with result [r] *)
 Definition rt_advance (t : rthread) (r : result) : rthread :=
   let code := tl (r_code t) in
   mkRT (match code with [] => RDone | _ => RReady end) code (S (r_pc t)) (r_token t) (r_guards t)
-       ((r_pc t, r) :: r_log t).
+       ((r_pc t, r) :: r_log t) false false.
 
 Definition has_guard (t : rthread) (k : gkind) (m : nat) : bool :=
   existsb (fun g => gkind_eqb (fst g) k && Nat.eqb (snd g) m) (r_guards t).
@@ -123,6 +127,11 @@ Definition rstep (s : rstate) (tid : nat) : rres :=
   match r_status t with
   | RNotStarted | RDone => RDisabled
   | RWaitCv _ _ => RDisabled
+  | RBoWait =>
+      (* polled again after a wake-up, or once spuriously *)
+      (if r_woken t then RNext [set_th s tid (rt_with_bo t RReady false (r_bospur t))]
+       else if r_bospur t then RDisabled
+       else RNext [set_th s tid (rt_with_bo t RReady false true)])
   | RInNotify n =>
       (* returns when the flag is set, consuming it *)
       let o := robj_get s n in
@@ -356,6 +365,36 @@ Definition rstep (s : rstate) (tid : nat) : rres :=
               let o := robj_get s k in
               if ro_live o then done1 (set_obj s k (ro_with_live o false)) tid t RUnit
               else done1 s tid t RX
+          | IBlockOn a v w =>
+              (* poll: ready if the awaited value can be read; otherwise register the waker
+                 with the AtomicWaker and wait *)
+              let o := robj_get s a in
+              let can_ready := if rs_weak s then existsb (N.eqb v) (ro_hist o) else N.eqb (ro_val o) v in
+              let can_pending := if rs_weak s then existsb (fun x => negb (N.eqb x v)) (ro_hist o)
+                                 else negb (N.eqb (ro_val o) v) in
+              let ready := if can_ready then [set_th s tid (rt_advance t RUnit)] else [] in
+              let pending :=
+                if can_pending
+                then [set_th (set_obj s w (ro_with_owner (robj_get s w) (Some tid))) tid
+                             (rt_with_status t RBoWait)]
+                else [] in
+              RNext (ready ++ pending)
+          | IWake w =>
+              let ow := robj_get s w in
+              match ro_owner ow with
+              | Some wt =>
+                  let s := set_obj s w (ro_with_owner ow None) in
+                  let tw := rth_get s wt in
+                  let s := set_th s wt (rt_with_bo tw (r_status tw) true (r_bospur tw)) in
+                  done1 s tid (rth_get s tid) RUnit
+              | None => done1 s tid t RUnit
+              end
+          | ITakeWaker w =>
+              let ow := robj_get s w in
+              match ro_owner ow with
+              | Some _ => done1 (set_obj s w (ro_with_owner ow None)) tid t (RVal 1)
+              | None => done1 s tid t (RVal 0)
+              end
           | ITlsWith _ => done1 s tid t RUnit
           | ILazyGet k => done1 s tid t (RVal (N.of_nat (41 + k)))
           | IPanic => RPanic
